@@ -9,6 +9,10 @@ binding: spec -> code: every edge replayed on a PAIR of real iterators (cache on
          and `rendered` (was _render_ called?) must equal the spec's; code -> spec: seeded random
          paired histories (cache argument True / False / ints around the frame count, N up to 12)
          validated by TLC (Trace_RenderIter.tla, uncached-twin clause).
+round 7: render-argument VALUES that cannot be hashed (MC_RenderIter_D.cfg + scripted histories);
+         the iterator that draw()/_animate_() builds (DrawCacheCore.tla / MC_DrawCache.cfg /
+         Trace_DrawCache.tla, harness/c09_draw.py): the real draw() with loops in {1,2,3,infinite}
+         x cache arguments around frame_count, interrupted by Ctrl-C at every kind of position.
 The image-iterator half of C09 (ImageIterator's two-phase cache keyed by rendered size) is
 checked by the C11 machinery (ImageIter.tla) and reported there and here (see notes/C09.md).
 """
@@ -24,17 +28,36 @@ def main(rep: Report, replay: dict | None) -> None:
     # term_image.image is imported
     from .. import imageiter_pairs
 
-    is_img = bool(replay) and replay["scenario"].get("kind") not in ("replay", "trace", "design", "renderop")
+    kind = replay["scenario"].get("kind") if replay else None
+    if kind == "draw" or (kind == "design" and replay["scenario"].get("cfg") == "MC_DrawCache.cfg"):
+        from ..env import stubs
+
+        stubs.install()
+        stubs.set_term(size=(8, 6))
+        from .. import c09_draw
+
+        if kind == "draw":
+            c09_draw.replay_scenario(rep, replay["scenario"])
+        else:
+            c09_draw.design(rep)
+        return
+    is_img = bool(replay) and kind not in ("replay", "trace", "design", "renderop")
     if is_img:
         from . import c11
 
         c11.main(rep, replay)
         return
     imageiter_pairs.run(rep, replay)
-    c08.main(rep, replay, which=("B",), pair=True)
+    c08.main(rep, replay, which=("B", "D"), pair=True)
+    if not replay:
+        from .. import c09_draw
+
+        c09_draw.run(rep)  # the iterator draw() builds: cache decision over (loops, cache, frame_count)
     rep.rule = (
         "render iterator: all edges of the cached RenderIter model replayed on paired cached/uncached "
         "real iterators + seeded random paired histories validated by TLC; image iterator: seeded "
         "random histories of paired cached/uncached ImageIterators (size changes, dynamic sizes + "
-        "terminal resizes, seeks) validated by TLC against ImageIter.tla; distinct = walks + traces"
+        "terminal resizes, seeks) validated by TLC against ImageIter.tla; draw(): grid + seeded random "
+        "(loops, cache, interruption point) cases of the real draw() validated by TLC against "
+        "DrawCacheCore.tla; distinct = walks + traces + draw cases"
     )
